@@ -1410,8 +1410,9 @@ where
         let buf: &'b [u8] = &rem[..v];
         let rem: &'b [u8] = &rem[v..];
         let (m, empty): (M, &'a [u8]) = <M as Unpackable<'a>>::unpack(buf)?;
-        // TODO(rescrv): assert is nasty
-        assert_eq!(0, empty.len());
+        if !empty.is_empty() {
+            return Err(wrong_length(v - empty.len(), v).into());
+        }
         Ok((Self(m), rem))
     }
 }
